@@ -100,9 +100,16 @@ func vfExprList(kind int) *vfList {
 	return l
 }
 
-func vfSpecList(imports bool) *vfList {
+func vfSpecList(imports bool) *vfList { return vfSpecListK(imports, false) }
+
+func vfSpecListK(imports, typeSpecs bool) *vfList {
 	gd := &dst.GenDecl{Tok: token.VAR, Lparen: true, Rparen: true}
-	if imports {
+	if typeSpecs {
+		gd.Tok = token.TYPE
+		for _, p := range []string{"A", "B", "C"} {
+			gd.Specs = append(gd.Specs, &dst.TypeSpec{Name: vfIdent(p), Type: vfIdent("int")})
+		}
+	} else if imports {
 		gd.Tok = token.IMPORT
 		for _, p := range []string{"\"a\"", "\"b\"", "\"c\""} {
 			gd.Specs = append(gd.Specs, &dst.ImportSpec{Path: &dst.BasicLit{Kind: token.STRING, Value: p}})
@@ -231,6 +238,7 @@ func vfAllDecorations(n dst.Node) []string {
 // vfC02 runs the chunk lemma and the edit check for one list kind.
 func vfC02(l *vfList) {
 	r0 := vfRestorerMid()
+	vfAssume(r0.cursor != r0.cursorAtNewLine) // r0 only produces the positioned ast; its freshness is irrelevant
 	an := r0.restoreNode(l.root, "", "", "", false)
 	fd := NewDecorator(nil).newFileDecorator()
 	fd.addNodeFragments(an)
@@ -433,10 +441,20 @@ func vfC02(l *vfList) {
 	}
 	// expected comment sequence: chunk by chunk in the new order
 	ci := 0
+	chunkEnd := token.Pos(0) // end of the previous chunk (element or its trailing comment)
 	for pos, k := range order {
 		an := r.Ast.Nodes[ns[pos]]
 		first := vfFirstTokenPos(an, 0)
 		lastEnd := vfLastTokenEnd(an, 0)
+		// every element (with its chunk) starts on a line of its own
+		if pos > 0 {
+			firstItem := first
+			if len(chunks[k].above) > 0 && ci < len(got) {
+				firstItem = got[ci].Slash
+			}
+			vfAssert(vfBreaks(r, mark, chunkEnd, firstItem) >= 1, "edit/element-starts-on-its-own-line")
+		}
+		chunkEnd = lastEnd
 		for _, c := range chunks[k].above {
 			vfAssert(ci < len(got), "edit/comment-rendered")
 			if ci >= len(got) {
@@ -460,10 +478,23 @@ func vfC02(l *vfList) {
 			vfAssert(got[ci].Text == t, "edit/trailing-comment-travels-with-element")
 			vfAssert(got[ci].Slash >= lastEnd, "edit/trailing-comment-after-its-element")
 			vfAssert(vfBreaks(r, mark, lastEnd, got[ci].Slash) == 0, "edit/trailing-comment-on-the-same-line")
+			chunkEnd = got[ci].Slash + token.Pos(len(t))
 			ci++
 		}
 	}
 	vfAssert(ci == len(got), "edit/no-comment-lost-or-duplicated")
+	// the closing delimiter (the next positioned token after the list) stays on its own line
+	for _, f := range vfFragments(r.Ast.Nodes[out]) {
+		if pos, _, ok := vfFragExtent(f); ok && vfMeasurable(f) {
+			if _, isTok := f.(*tokenFragment); isTok {
+				afterAll := pos >= chunkEnd
+				if vfB2I(afterAll) == 1 {
+					vfAssert(vfBreaks(r, mark, chunkEnd, pos) >= 1, "edit/closing-delimiter-on-its-own-line")
+					break
+				}
+			}
+		}
+	}
 }
 
 // vfRebind returns a list adapter over the decorated tree (same shape as the source tree).
@@ -536,6 +567,7 @@ func VerifC02Stmts()    { vfC02(vfStmtList()) }
 func VerifC02Args()     { vfC02(vfExprList(0)) }
 func VerifC02Elements() { vfC02(vfExprList(1)) }
 func VerifC02Specs()    { vfC02(vfSpecList(false)) }
+func VerifC02TypeSpecs() { vfC02(vfSpecListK(false, true)) }
 func VerifC02Imports()  { vfC02(vfSpecList(true)) }
 func VerifC02Fields()   { vfC02(vfFieldList(false)) }
 func VerifC02Methods()  { vfC02(vfFieldList(true)) }
